@@ -98,7 +98,8 @@ func genC17(r *rand.Rand, id int) *c17Case {
 		cs.Chunks = nil
 	}
 	cs.SetLength = r.Intn(3) == 0
-	cs.AcceptEnc = choose(r, []string{"", "gzip", "gzip", "gzip, deflate", "gzip, deflate, br", "br", "deflate", "identity", "GZIP", "deflate, gzip"})
+	cs.AcceptEnc = choose(r, []string{"", "gzip", "gzip", "gzip, deflate", "gzip, deflate, br", "br", "deflate", "identity", "GZIP", "deflate, gzip",
+		"gzip;q=0", "identity, gzip;q=0", "gzip; q=0.0, identity;q=1", "gzip;q=0.5, br;q=1", "deflate, gzip ; q=0"})
 	cs.Accept = choose(r, []string{"", "*/*", "text/html", "text/event-stream", "application/json, text/event-stream"})
 	cs.Method = choose(r, []string{"GET", "GET", "GET", "POST", "HEAD"})
 	if r.Intn(3) == 0 {
@@ -268,7 +269,7 @@ func c17Gzip(c *ctx) {
 				}
 				bodiless := cs.Method == "HEAD" || ref.Status == 204 || ref.Status == 304
 				labelled := w.Hdr.Get("Content-Encoding") == "gzip" && ref.Hdr.Get("Content-Encoding") == ""
-				acceptsGzip := strings.Contains(cs.AcceptEnc, "gzip")
+				acceptsGzip := c17AcceptsGzip(cs.AcceptEnc)
 				if labelled {
 					compressed.Add(1)
 					c.R.Nontrivial(fmt.Sprintf("%+v", *cs))
@@ -352,4 +353,24 @@ func c17Gzip(c *ctx) {
 	if compressed.Load() < 100 || plain.Load() < 100 {
 		c.R.Inconcl("too few responses observed: %d compressed, %d uncompressed", compressed.Load(), plain.Load())
 	}
+}
+
+// c17AcceptsGzip: the client lists the gzip coding (any letter case) with a weight other than zero (RFC 9110 12.5.3).
+func c17AcceptsGzip(ae string) bool {
+	for _, el := range strings.Split(ae, ",") {
+		coding, params, _ := strings.Cut(el, ";")
+		if !strings.EqualFold(strings.TrimSpace(coding), "gzip") {
+			continue
+		}
+		for _, p := range strings.Split(params, ";") {
+			k, v, _ := strings.Cut(p, "=")
+			if strings.EqualFold(strings.TrimSpace(k), "q") {
+				if q, err := strconv.ParseFloat(strings.TrimSpace(v), 64); err != nil || q <= 0 {
+					return false
+				}
+			}
+		}
+		return true
+	}
+	return false
 }
